@@ -313,6 +313,11 @@ func Run(in, out, mode string) error {
 			if e.Panic != 0 {
 				break
 			}
+			if (g.Ev == "Push" || g.Ev == "Pop") && e.Ok != g.Ok {
+				// the real object took another branch than the model: the rest of the
+				// generated history no longer follows the workflow (the event itself is judged)
+				break
+			}
 		}
 		// non-trivial: a slot was retrieved at an index other than the one it was saved at
 		if d.offsetUsed {
